@@ -49,6 +49,8 @@ def cases(tier, seed, rng):
                 out.append(Case(['vgate [%d,%d,%d] = = %s %d' % (v[0], v[1], v[2], mode, force)]))
                 if mode != 'ow' and (abs(v[0] - L[0]) + abs(v[1] - L[1]) + abs(v[2] - L[2])) <= 2:
                     out.append(Case(['vgate2 [%d,%d,%d] = = %s %d' % (v[0], v[1], v[2], mode, force)]))
+                if mode == 'rw' and force == 0 and v in cube:
+                    out.append(Case(['vgate3 [%d,%d,%d] = = rw 0' % (v[0], v[1], v[2])]))
     # files without an id attribute: required from the id-gate version on
     for v in cube + [(L[0], L[1] - 1, 100), (L[0], L[1] - 1, 250), (L[0], 0, 0)]:
         for force in (0, 1):
